@@ -187,6 +187,26 @@ mod derived {
 		fn abs(&self) -> Value { json!([self.payload.abs(), {"i":1,"fs":[]}]) }
 	}
 
+	/// transparent struct: compact data field plus an attribute-free zero-sized marker
+	#[derive(Encode, Decode, DecodeWithMemTracking, Debug, PartialEq, Clone, Copy)]
+	#[repr(transparent)]
+	pub struct STranspCM { #[codec(compact)] pub value: u32, pub marker: core::marker::PhantomData<u8> }
+	impl Reg for STranspCM {
+		fn name() -> String { "STranspCM".into() }
+		fn descr() -> Value { tuple_descr(vec![Compact::<u32>::descr(), json!({"k":"unit","sz":0})], size_of::<Self>()) }
+		fn gen(g: &mut G) -> Self { STranspCM { value: u32::gen(g), marker: core::marker::PhantomData } }
+		fn abs(&self) -> Value { json!([digits(self.value as u128, 4), []]) }
+	}
+	#[derive(Encode, Decode, DecodeWithMemTracking, Debug, PartialEq, Clone, Copy)]
+	#[repr(transparent)]
+	pub struct STranspEA { pub marker: (), #[codec(encoded_as = "Compact<u64>")] pub value: u64 }
+	impl Reg for STranspEA {
+		fn name() -> String { "STranspEA".into() }
+		fn descr() -> Value { tuple_descr(vec![json!({"k":"unit","sz":0}), Compact::<u64>::descr()], size_of::<Self>()) }
+		fn gen(g: &mut G) -> Self { STranspEA { marker: (), value: u64::gen(g) } }
+		fn abs(&self) -> Value { json!([[], digits(self.value as u128, 8)]) }
+	}
+
 	#[derive(Encode, Decode, DecodeWithMemTracking, Debug, PartialEq, Clone)]
 	#[repr(transparent)]
 	pub struct STranspBig(pub [u64; 100]);
